@@ -18,7 +18,7 @@ func zzKey12(r *Result) string {
 		r.PaginationInfo.NextPage, r.PaginationInfo.PrevPage, r.MarkupInfo.Title, r.MarkupInfo.Type, r.MarkupInfo.Author}, "\x00")
 }
 
-var zzURLs12 = []string{"http://h.t/a?page=2", "http://h.t/story/2/", "http://h.t/plain/", "http://h.t/list?cat=2&page=2"}
+var zzURLs12 = []string{"http://h.t/a?page=2", "http://h.t/story/2/", "http://h.t/plain/", "http://h.t/list?cat=2&page=2", "http://h.t/archive?page=2"}
 
 // HarnessC12Interference decides the non-interference condition that makes
 // concurrent calls safe: a call (i) writes no package-level state, (ii)
